@@ -37,14 +37,14 @@ type c16Scenario struct {
 }
 
 type footprint struct {
-	Goroutines int            `json:"goroutines"`
-	FDs        map[string]int `json:"fds"`
-	TempFiles  int            `json:"temp_files"`
-	Tracked    int            `json:"tracked_seeds"`
-	Tokens     int            `json:"tokens_in_use"`
-	Buckets    int            `json:"limiter_buckets"`
-	MaxBuckets int            `json:"limiter_max_buckets"`
-	Stable     bool           `json:"stable"`
+	Goroutines     int            `json:"goroutines"`
+	FDs            map[string]int `json:"fds"`
+	TempFiles      int            `json:"temp_files"`
+	Tracked        int            `json:"tracked_seeds"`
+	Tokens         int            `json:"tokens_in_use"`
+	Buckets        int            `json:"limiter_buckets"`
+	MaxBuckets     int            `json:"limiter_max_buckets"`
+	Stable         bool           `json:"stable"`
 	GoroutineKinds map[string]int `json:"goroutine_kinds,omitempty"`
 }
 
